@@ -15,7 +15,8 @@ func VerifC10Timers()  { c10Timers(3) }
 func VerifC10Timers4() { c10Timers(4) }
 
 func c10Timers(steps int) {
-	mode := verifrt.Choose("mode", 3) // 0 plain, 1 cached, 2 test scope
+	mode := verifrt.Choose("mode", 4) // 0 plain, 1 cached, 2 test scope, 3 both reporters configured
+	both := mode == 3
 	var root *scope
 	rec := &vReporter{}
 	crec := &vCachedReporter{}
@@ -26,7 +27,12 @@ func c10Timers(steps int) {
 		root = newRootScope(ScopeOptions{Prefix: "p", Tags: map[string]string{"r": "1"}, CachedReporter: crec, OmitCardinalityMetrics: true, registryShardCount: 1}, 0)
 	case 2:
 		root = newRootScope(ScopeOptions{Prefix: "p", Tags: map[string]string{"r": "1"}, testScope: true, registryShardCount: 1}, 0)
+	case 3:
+		// a scope given both kinds of reporter: a timer that has a cached handle reports through it only
+		root = newRootScope(ScopeOptions{Prefix: "p", Tags: map[string]string{"r": "1"}, Reporter: rec, CachedReporter: crec, OmitCardinalityMetrics: true, registryShardCount: 1}, 0)
+		mode = 1
 	}
+	_ = both
 	sub := root.SubScope("s").Tagged(map[string]string{"t": "2"})
 	timers := []Timer{root.Timer("t1"), sub.Timer("t2")}
 	names := []string{"p.t1", "p.s.t2"}
